@@ -4,6 +4,8 @@ use std::path::PathBuf;
 
 pub mod c01;
 pub mod c04;
+pub mod c05;
+pub mod c08;
 pub mod c09;
 pub mod c10;
 pub mod c14;
@@ -30,7 +32,9 @@ pub fn run(id: &str, ctx: &Ctx) -> i32 {
         "C02" => c01::run02(ctx),
         "C03" => c01::run03(ctx),
         "C04" => c04::run04(ctx),
+        "C05" => c05::run05(ctx),
         "C06" => c04::run06(ctx),
+        "C08" => c08::run08(ctx),
         "C09" => c09::run(ctx),
         "C10" => c10::run(ctx),
         "C14" => c14::run(ctx),
